@@ -54,7 +54,7 @@ def main():
         ],
         "checks": checks,
         "not_applicable": na,
-        "notes": "All checks are static analysis of /repo's current working tree (facts re-extracted whenever any .rs/.toml/.lock/.mol file changes). known_findings.json lists the recorded open findings (F4: seven ChainStore accessors without a freezer fallback, printed as KNOWN-FINDING lines by check C10; F10: pool aggregates when a parent arrives after its children, printed by C11; F24: load_data_as_code registers zero padding as cell content, printed by C05) and the 24 defects repaired by fix: commits in /repo (DESIGN.md section 6).",
+        "notes": "All checks are static analysis of /repo's current working tree (facts re-extracted whenever any .rs/.toml/.lock/.mol file changes). known_findings.json lists the recorded open findings (F4: seven ChainStore accessors without a freezer fallback, printed as KNOWN-FINDING lines by check C10; F10: pool aggregates when a parent arrives after its children, printed by C11; F24: load_data_as_code registers zero padding as cell content, printed by C05; F28: the epoch-number index row follows the last processed epoch head, printed by C02; F31: dep-group members are children in the pool's edges but not in its links, printed by C11) and the 26 defects repaired by fix: commits in /repo (DESIGN.md section 6).",
     }
     json.dump(m, open(os.path.join(V, "MANIFEST.json"), "w"), indent=1)
     print("checks:", [c["property_id"] for c in checks], "na:", [n["property_id"] for n in na])
